@@ -217,7 +217,7 @@ func (a *TCPAllocation) DialTCPWithConn(conn net.Conn, _ string, rAddr *net.TCPA
 	if err != nil {
 		if errors.Is(err, errTryAgain) {
 			// Retries used up: leave nothing behind, as for any other failure.
-			a.permMap.delete(rAddr)
+			a.forgetIdlePermission(perm, rAddr)
 		}
 
 		return nil, err
@@ -237,7 +237,7 @@ func (a *TCPAllocation) DialTCPWithConn(conn net.Conn, _ string, rAddr *net.TCPA
 	dataConn := &TCPConn{
 		TCPConn:       tcpConn,
 		ConnectionID:  cid,
-		remoteAddress: rAddr,
+		remoteAddress: &net.TCPAddr{IP: append(net.IP(nil), rAddr.IP...), Port: rAddr.Port, Zone: rAddr.Zone},
 		allocation:    a,
 	}
 
@@ -321,6 +321,11 @@ func (a *TCPAllocation) Accept() (net.Conn, error) {
 
 // AcceptTCP accepts the next incoming call and returns the new connection.
 func (a *TCPAllocation) AcceptTCP() (transport.TCPConn, error) {
+	// Before a connection to the TURN server is opened for nothing.
+	if err := a.acceptErr(); err != nil {
+		return nil, err
+	}
+
 	addr, err := a.serverTCPAddr()
 	if err != nil {
 		return nil, err
@@ -339,30 +344,29 @@ func (a *TCPAllocation) AcceptTCP() (transport.TCPConn, error) {
 	return dataConn, err
 }
 
-// AcceptTCPWithConn accepts the next incoming call and returns the new connection.
-func (a *TCPAllocation) AcceptTCPWithConn(conn net.Conn) (*TCPConn, error) {
-	// A closed allocation fails every Accept, and a deadline that has passed
-	// fails every Accept until it is moved: neither may lose against a
-	// queued connection attempt in the select below.
+// acceptErr returns the error of an Accept that cannot succeed: a closed
+// allocation fails every Accept, and a deadline that has passed fails every
+// Accept until it is moved. Neither may lose against a queued connection
+// attempt, nor wait for a connection to the TURN server.
+func (a *TCPAllocation) acceptErr() error {
 	select {
 	case <-a.closeCh:
-		return nil, &net.OpError{
-			Op:   "accept",
-			Net:  a.Addr().Network(),
-			Addr: a.Addr(),
-			Err:  net.ErrClosed,
-		}
+		return &net.OpError{Op: "accept", Net: a.Addr().Network(), Addr: a.Addr(), Err: net.ErrClosed}
 	default:
 	}
 	select {
 	case <-a.acceptDeadline.Done():
-		return nil, &net.OpError{
-			Op:   "accept",
-			Net:  a.Addr().Network(),
-			Addr: a.Addr(),
-			Err:  newTimeoutError("i/o timeout"),
-		}
+		return &net.OpError{Op: "accept", Net: a.Addr().Network(), Addr: a.Addr(), Err: newTimeoutError("i/o timeout")}
 	default:
+	}
+
+	return nil
+}
+
+// AcceptTCPWithConn accepts the next incoming call and returns the new connection.
+func (a *TCPAllocation) AcceptTCPWithConn(conn net.Conn) (*TCPConn, error) {
+	if err := a.acceptErr(); err != nil {
+		return nil, err
 	}
 
 	select {
